@@ -10,7 +10,7 @@ KW = {"default": {}, "quoted": {"quoted": True}, "platform_aware": {"platform_aw
 GRIDS = {}
 
 
-TRIM_BASE = [("b_host", nvar.B_HOST), ("b_path", ["", "/p/q", "/a b/é", "/a%2fb%20c", "/p/amp/index"]), ("b_query", [0, 1, 3, 4]), ("b_frag", ["", "/home/inbox"])]
+TRIM_BASE = [("b_host", nvar.B_HOST), ("b_path", ["", "/p/q", "/a b/é", "/a%2fb%20c", "/p/amp/index"]), ("b_query", [0, 1, 3, 4, 5]), ("b_frag", ["", "/home/inbox"])]
 
 
 def the_grid(tier):
